@@ -360,7 +360,8 @@ class GeoPolygon(PolygonBase, SimpleShapeMixin):
     @cached_property
     def centroid(self):
         # Decompose polygon into triangles using vertex pairs around the origin
-        poly1 = np.array([x.to_float() for x in self.bounding_coords()])
+        # Longitude/latitude only: Z is passed on separately below (and M is not averaged)
+        poly1 = np.array([x.to_float()[:2] for x in self.bounding_coords()])
         poly2 = np.roll(poly1, -1, axis=0)
 
         # Compute signed area manually since np.cross is deprecated for 2D inputs
